@@ -14,26 +14,35 @@ fn out(found: bool, input: serde_json::Value, observed: String, expected: String
 fn bh() -> BuildHasherDefault<FnvHasher> { BuildHasherDefault::<FnvHasher>::default() }
 
 // every sketcher of the crate on one input; floats rendered as bit patterns
-fn all_sketches(m: usize, n: u64) -> Vec<(String, Vec<u64>)> {
+// hist > 0: every sketcher that can be recycled first sketches `hist` other items and is reinitialised (an instance taken from a pool)
+fn all_sketches(m: usize, n: u64) -> Vec<(String, Vec<u64>)> { all_sketches_h(m, n, 0) }
+fn all_sketches_h(m: usize, n: u64, hist: u64) -> Vec<(String, Vec<u64>)> {
     let items: Vec<u64> = (0..n).map(|i| i * 7919 + 3).collect();
+    let old: Vec<u64> = (0..hist).map(|i| i * 104_729 + 11).collect();
     let mut res = Vec::new();
     let mut s = crate::superminhasher::SuperMinHash::<f64, u64, FnvHasher>::new(m, bh());
+    if hist > 0 { for x in &old { s.sketch(x).unwrap(); } s.reinit(); }
     for x in &items { s.sketch(x).unwrap(); }
     res.push(("SuperMinHash".to_string(), s.get_hsketch().iter().map(|x| x.to_bits()).collect()));
     let mut s = crate::superminhasher2::SuperMinHash2::<u64, u64, FnvHasher>::new(m, bh());
+    if hist > 0 { for x in &old { s.sketch(x).unwrap(); } s.reinit(); }
     for x in &items { s.sketch(x).unwrap(); }
     res.push(("SuperMinHash2".to_string(), s.get_hsketch().clone()));
     let mut p = crate::setsketcher::SetSketchParams::default(); p.set_m(m);
     let mut s = crate::setsketcher::SetSketcher::<u16, u64, FnvHasher>::new(p, bh());
+    if hist > 0 { for x in &old { s.sketch(x).unwrap(); } s.reinit(); }
     for x in &items { s.sketch(x).unwrap(); }
     res.push(("SetSketcher".to_string(), s.get_signature().iter().map(|&x| x as u64).collect()));
     let mut s = crate::densminhash::OptDensMinHash::<f64, u64, FnvHasher>::new(m, bh());
+    if hist > 0 { s.sketch_slice(&old).unwrap(); s.reinit(); }
     s.sketch_slice(&items).unwrap();
     res.push(("OptDensMinHash".to_string(), s.get_hsketch_u64()));
     let mut s = crate::densminhash::RevOptDensMinHash::<f64, u64, FnvHasher>::new(m, bh());
+    if hist > 0 { s.sketch_slice(&old).unwrap(); s.reinit(); }
     s.sketch_slice(&items).unwrap();
     res.push(("RevOptDensMinHash".to_string(), s.get_hsketch_u64()));
     let mut s = crate::probminhasher::ProbMinHash2::<u64, FnvHasher>::new(m, 0);
+    if hist > 0 { for x in &old { s.hash_item(*x, 2.0); } s.reset(); }
     for x in &items { s.hash_item(*x, 1.0 + (*x % 7) as f64); }
     res.push(("ProbMinHash2".to_string(), s.get_signature().clone()));
     let mut s = crate::probminhasher::ProbMinHash3::<u64, FnvHasher>::new(m, 0);
@@ -57,6 +66,7 @@ fn all_sketches(m: usize, n: u64) -> Vec<(String, Vec<u64>)> {
     res.push(("ProbMinHash3aSha".to_string(), s.get_signature().iter().map(|x| x.len() as u64 * 1000 + x.bytes().map(|b| b as u64).sum::<u64>()).collect()));
     if m >= 2 && items.len() >= 2 {
         let mut s = crate::probminhasher::probordminhash2::ProbOrdMinHash2::<FnvHasher>::new(m as u32, 2);
+        if hist >= 2 { let _ = s.hash_set(&old); }
         res.push(("ProbOrdMinHash2".to_string(), s.hash_set(&items)));
     }
     res
@@ -73,6 +83,10 @@ fn case(m: usize, n: u64) -> Option<(String, String)> {
     let a = all_sketches(m, n);
     let b = all_sketches(m, n);
     if let Some(d) = diff(&a, &b, "second instance in the same thread") { return Some(d); }
+    for hist in [1u64, 2, 3, 40] {
+        let r = all_sketches_h(m, n, hist);
+        if let Some(d) = diff(&a, &r, &format!("recycled instance ({hist} items sketched, then reinit/reset)")) { return Some(d); }
+    }
     let hs: Vec<_> = (0..3).map(|_| std::thread::spawn(move || all_sketches(m, n))).collect();
     for h in hs { let c = h.join().unwrap(); if let Some(d) = diff(&a, &c, "instance in another thread") { return Some(d); } }
     // another process
